@@ -96,7 +96,9 @@ ArgDom(cfg, m) ==
   IF IsReq(m) THEN 0..(cfg.depth - 1)
   ELSE IF IsResp(m) THEN {0}
   ELSE [addr : 0..(cfg.depth - 1),
-        data : IF cfg.width = 1 THEN {1} ELSE {1, 2},
+        \* whole-row writes include 0 so that the model graph stays strongly connected (few
+        \* resets in the edge-cover replay); with granules {01, 10} clears every granule anyway
+        data : IF cfg.width = 1 THEN {0, 1} ELSE IF cfg.granularity = 0 THEN {0, 3} ELSE {1, 2},
         mask : IF cfg.granularity = 0 THEN {1} ELSE 1..(MM!Pow2(MM!NGran(cfg)) - 1)]
 
 \* ---------- properties (C21) -----------------------------------------------------------
